@@ -20,7 +20,8 @@ META = {
         ' (nomemo) no memoising decorator lies on a call path from a volatile '
         'registration to its source; (sites) every pre-evaluation site whose '
         'solution is reused as blockers= runs with the COMPILING flag set.'
-        ' (refs) the load-time evaluation of defined names keeps only range references, never computed values; (direct) the compiled function of a cell is called from CellWrapper.__call__ only - loading code never evaluates a cell itself; (randint) the RANDBETWEEN core returns a value that is integral by construction, a half-open draw adds one to its upper limit, and the empty-range guard tests the bounds the draw uses.'),
+        ' (refs) the load-time evaluation of defined names keeps only range references, never computed values; (direct) the compiled function of a cell is called from CellWrapper.__call__ only - loading code never evaluates a cell itself; (randint) the RANDBETWEEN core returns a value that is integral by construction, a half-open draw adds one to its upper limit, and the empty-range guard tests the bounds the draw uses.'
+        ' (history) a calculation takes no value from the solution of an earlier one; (randint, truncation) int() is not applied to a sum that has the lower bound as a term.'),
     'not_decided': (
         'Snapshot consistency inside one calculation (schedula scheduling), the '
         'numeric range of RAND/RANDBETWEEN, and that nothing else caches a '
